@@ -377,7 +377,7 @@ IDS = ["a", "b", "x", "y1", "foo", "bar_2", "q"]
 
 
 def _expr_model(ops, prios, assocs, parens=True, num_re=r"\d+", order=None, layout="ws",
-                dynamic=False, nums=NUMS):
+                dynamic=False, nums=NUMS, num_rec=False):
     alts = []
     for op in ops:
         meta = []
@@ -405,7 +405,13 @@ def _expr_model(ops, prios, assocs, parens=True, num_re=r"\d+", order=None, layo
                 it.sym = name_of.get(it.sym, it.sym)
     if parens:
         terms += [Term("(", "str", "(", ["("]), Term(")", "str", ")", [")"])]
-    terms.append(Term("num", "re", num_re, nums))
+    if num_rec:
+        # operands recognised by a harness recognizer (a callback that can fail;
+        # it is also called where an operand is NOT expected, when every
+        # recognizer of the grammar is probed for an error report)
+        terms.append(Term("num", "rec", "digits", [n for n in nums if n.isdigit()]))
+    else:
+        terms.append(Term("num", "re", num_re, nums))
     return GModel([Rule("E", alts)], terms, layout=layout)
 
 
@@ -587,12 +593,13 @@ def fam_dyn(rng):
     to a stateful run-time precedence filter."""
     n = rng.randint(2, 3)
     ops = rng.sample(["+", "*", "-", "^"], n)
-    base = _expr_model(ops, {}, {}, parens=False, dynamic=True)
+    nr = rng.random() < 0.5
+    base = _expr_model(ops, {}, {}, parens=False, dynamic=True, num_rec=nr)
     ops2 = ops + [rng.choice([o for o in ["+", "*", "-", "^", "%"] if o not in ops])]
-    v1 = _expr_model(ops2, {}, {}, parens=False, dynamic=True)
+    v1 = _expr_model(ops2, {}, {}, parens=False, dynamic=True, num_rec=nr)
     order = list(range(n + 1))
     rng.shuffle(order)
-    v2 = _expr_model(ops, {}, {}, parens=False, dynamic=True, order=order)
+    v2 = _expr_model(ops, {}, {}, parens=False, dynamic=True, order=order, num_rec=nr)
     return dict(family="dyn", models=[base, v1, v2], layout="ws", lex_overlap=False,
                 dynamic=True)
 
